@@ -15,7 +15,7 @@ import (
 
 func init() {
 	Register(&World{Name: "group", Episodes: true, Props: []string{"C17"}, Concurrent: true, Timed: true, MaxSteps: 8000, Run: groupWorld})
-	ExpectedProbes["group"] = []string{"periodic-interval-not-positive", "registration-after-stop", "registration-racing-stop", "trigger-during-run", "trigger-with-slot-full", "periodic-ran", "stop-while-f-running", "parent-cancelled", "do-ran", "periodic-or-trigger-by-timer", "periodic-or-trigger-by-trigger"}
+	ExpectedProbes["group"] = []string{"f-retriggers-itself-every-run", "periodic-interval-not-positive", "registration-after-stop", "registration-racing-stop", "trigger-during-run", "trigger-with-slot-full", "periodic-ran", "stop-while-f-running", "parent-cancelled", "do-ran", "periodic-or-trigger-by-timer", "periodic-or-trigger-by-trigger"}
 }
 
 type groupReg struct {
@@ -91,6 +91,12 @@ func groupWorld(r *R) {
 		rg.nestDo = r.Choose(5, "nested-do") == 4
 		if (rg.kind == 2 || rg.kind == 3) && r.Choose(3, "self-trigger") == 2 {
 			rg.selfTrig = 1
+			if !settled && rg.runTime > 0 && r.Choose(3, "self-trigger-always") == 2 {
+				// "there is more work": the function asks for another run of itself every time, so a
+				// trigger is pending whenever a run ends - also when the group is stopped
+				rg.selfTrig = 1 << 30
+				r.Probe("f-retriggers-itself-every-run")
+			}
 		}
 		rg.raceStop = !settled && r.Choose(3, "race-stop") == 2
 		if rg.runTime > longest {
@@ -330,6 +336,13 @@ func groupWorld(r *R) {
 		for _, rg := range regs {
 			if rg.running > 0 {
 				r.Probe("stop-while-f-running")
+			}
+			// "Periodic functions keep being invoked until the group is stopped": one that was
+			// registered with no interval at all a good while ago has run by now
+			if rg.kind == 1 && rg.interval <= 0 && rg.registered && strict && !parent.Dead() &&
+				int64(sim.Now())-rg.regAt >= int64(50*time.Millisecond) && len(rg.starts) == 0 {
+				r.Violate("C17", "periodic-never-ran/Periodic", "f%d was registered with Periodic(interval=%v) %v ago and has not been invoked once", rg.id, rg.interval, time.Duration(int64(sim.Now())-rg.regAt))
+				return
 			}
 		}
 		if stopMode == 1 {
